@@ -90,7 +90,6 @@ func inlineHelpers(g *Graph, f *FuncInfo, depth int, stack map[*FuncInfo]bool) {
 		h := f.W.FuncOf(fn)
 		return h != nil && h.Body() != nil && !stack[h]
 	}
-	splitBoolReturns(g, f)
 	// go/cfg keeps a compound condition as one node: split the ones that call a
 	// candidate helper into their short-circuit steps, so the call is a node
 	for _, n := range append([]*GNode{}, g.Nodes...) {
